@@ -632,8 +632,9 @@ impl CpcSketch {
             )));
         }
 
-        let uncompressed = compressed.uncompress(lg_k, num_coupons);
-        Ok(CpcSketch {
+        compressed.check_sections(lg_k, num_coupons, has_table, has_window)?;
+        let uncompressed = compressed.uncompress(lg_k, num_coupons)?;
+        let sketch = CpcSketch {
             lg_k,
             seed,
             seed_hash,
@@ -645,7 +646,48 @@ impl CpcSketch {
             merge_flag: !has_hip,
             kxp: kxp.unwrap_or((1u64 << lg_k) as f64),
             hip_est_accum,
-        })
+        };
+        if !sketch.coupon_count_is_consistent() {
+            return Err(Error::deserial(
+                "num_coupons does not match the window and the surprising values",
+            ));
+        }
+        Ok(sketch)
+    }
+
+    /// Counts the coupons the window and the surprising-value table encode (without building
+    /// the bit matrix) and compares with num_coupons.
+    fn coupon_count_is_consistent(&self) -> bool {
+        let k = 1u64 << self.lg_k;
+        let offset = self.window_offset;
+        let mut count = k * offset as u64;
+        for &byte in &self.sliding_window {
+            count += byte.count_ones() as u64;
+        }
+        if let Some(table) = &self.surprising_value_table {
+            for &row_col in table.slots() {
+                if row_col == u32::MAX {
+                    continue;
+                }
+                let col = (row_col & 63) as u8;
+                if col < offset {
+                    // a surprising 0 in the early zone
+                    match count.checked_sub(1) {
+                        Some(c) => count = c,
+                        None => return false,
+                    }
+                } else if !self.sliding_window.is_empty() && col < offset + 8 {
+                    // inside the window: not a surprising value at all
+                    return false;
+                } else {
+                    count += 1;
+                }
+            }
+        }
+        count == self.num_coupons as u64
+            && self.kxp.is_finite()
+            && self.kxp > 0.0
+            && self.hip_est_accum.is_finite()
     }
 
     fn write_hip(&self, bytes: &mut SketchBytes) {
